@@ -148,8 +148,18 @@ Definition kw_set_msgstr_plural (v : list bytes) (k : kwargs) : kwargs :=
 (* the constants assigned to attributes of the entry:  None, (), lambda: True / False *)
 Inductive pyconst := PNone | PEmptyTuple | PConstFn (b : bool).
 
-(* polib.MOEntry called with the keyword arguments, followed by attribute assignments, in order *)
+(* polib.MOEntry called with the keyword arguments, followed by attribute assignments: the attributes set so far are kept
+   as an association list sorted by name (bytes order), a later assignment to the same name replaces the earlier one *)
+Fixpoint attr_insert (name : bytes) (v : pyconst) (l : list (bytes * pyconst)) : list (bytes * pyconst) :=
+  match l with
+  | [] => [(name, v)]
+  | (n, w) :: r =>
+    if bytes_ltb name n then (name, v) :: l
+    else if bytes_eqb name n then (name, v) :: r
+    else (n, w) :: attr_insert name v r
+  end.
+
 Record pentry := { p_kw : kwargs; p_attrs : list (bytes * pyconst) }.
 Definition MOEntry (k : kwargs) : pentry := {| p_kw := k; p_attrs := [] |}.
 Definition entry_setattr (name : bytes) (v : pyconst) (e : pentry) : pentry :=
-  {| p_kw := p_kw e; p_attrs := p_attrs e ++ [(name, v)] |}.
+  {| p_kw := p_kw e; p_attrs := attr_insert name v (p_attrs e) |}.
